@@ -7,6 +7,8 @@ import (
 	"context"
 	"fmt"
 	"math"
+	"os"
+	"path/filepath"
 	"sort"
 	"strings"
 	"sync"
@@ -14,9 +16,16 @@ import (
 
 	"golang.org/x/time/rate"
 
+	"github.com/deckhouse/deckhouse/pkg/log"
+
 	"github.com/flant/shell-operator/pkg/hook"
+	bindingcontext "github.com/flant/shell-operator/pkg/hook/binding_context"
 	"github.com/flant/shell-operator/pkg/hook/config"
+	"github.com/flant/shell-operator/pkg/hook/task_metadata"
 	htypes "github.com/flant/shell-operator/pkg/hook/types"
+	metricstorage "github.com/flant/shell-operator/pkg/metric_storage"
+	shell_operator "github.com/flant/shell-operator/pkg/shell-operator"
+	"github.com/flant/shell-operator/pkg/task"
 )
 
 func init() { suites["c18"] = runC18 }
@@ -108,7 +117,7 @@ func c18Drive(c *Case, lim *rate.Limiter, ts []int64) (grants []int64) {
 }
 
 func runC18(r *Run) {
-	r.Rule = "(a) the rate.Limiter returned by the real CreateRateLimiter for random (I, B) — I from 1 ms to 5 s incl. values that are not a whole number of ms, B from 0 (= default 1) to 10 — driven through ReserveN(t,1).DelayFrom(t) with 20..80 (thorough 100) explicit request times on a millisecond grid in 7 arrival patterns (one burst, faster than I, slower than I, exactly I, bursts with gaps, mixed, random); every delay is compared with the integer model (tolerance 1 us) and the window bound B+ceil(T/I) is checked exactly on the limiter's own grant times for every window; unthrottled configurations (no settings, I = 0, I < 0) must never delay; a few cases with request times going backwards exercise the clamp (correspondence only). (b) settings blocks loaded through the real HookConfig.LoadAndValidate -> CreateRateLimiter -> Limit()/Burst(). (c) wall-clock runs (2 quick, 8 thorough) of Hook.RateLimitWait from 1..3 goroutines (queues), start times measured with time.Now(), bound checked with a 40 ms allowance for timer lateness (runtime observation; inconclusive rather than failing when the scheduler was late). Non-trivial: >= 20 requests of which at least one was delayed; distinct = distinct op-line sequences."
+	r.Rule = "(a) the rate.Limiter returned by the real CreateRateLimiter for random (I, B) — I from 1 ms to 5 s incl. values that are not a whole number of ms, B from 0 (= default 1) to 10 — driven through ReserveN(t,1).DelayFrom(t) with 20..80 (thorough 100) explicit request times on a millisecond grid in 7 arrival patterns (one burst, faster than I, slower than I, exactly I, bursts with gaps, mixed, random); every delay is compared with the integer model (tolerance 1 us) and the window bound B+ceil(T/I) is checked exactly on the limiter's own grant times for every window; unthrottled configurations (no settings, I = 0, I < 0) must never delay; a few cases with request times going backwards exercise the clamp (correspondence only). (b) settings blocks loaded through the real HookConfig.LoadAndValidate -> CreateRateLimiter -> Limit()/Burst(). (c) wall-clock runs (2 quick, 8 thorough) of Hook.RateLimitWait from 1..3 goroutines (queues), start times measured with time.Now(), bound checked with a 40 ms allowance for timer lateness (runtime observation; inconclusive rather than failing when the scheduler was late). (d) ShellOperator.taskHandleHookRun itself (hooks loaded from a generated hooks directory through the real hook manager, `settings` in the hook's --config output) called for queued HookRun tasks from 1..3 goroutines; the hook script logs its own start time; the bound is checked with a 120 ms allowance for process start-up (1 run quick, 4 thorough, one of them unthrottled). Non-trivial: >= 20 requests of which at least one was delayed; distinct = distinct op-line sequences."
 
 	// ---- corpus ----
 	r.One(0, func(c *Case, _ *Rng) {
@@ -288,6 +297,116 @@ func runC18(r *Run) {
 			}
 		})
 	}
+	// ---- (d) whole handler: ShellOperator.taskHandleHookRun with a real hook (runtime observation) ----
+	r.Cases(950000, r.N(1, 4), 1, func(c *Case, rng *Rng) {
+		iv := PickOne(rng, []time.Duration{300 * time.Millisecond, 400 * time.Millisecond})
+		b := PickOne(rng, []int{1, 2})
+		queues := rng.Range(1, 3)
+		per := rng.Range(2, 4)
+		throttled := c.Idx != 950003
+		c.Desc = fmt.Sprintf("operator: taskHandleHookRun, I=%v B=%d, %d queues x %d HookRun tasks, throttled=%v", iv, b, queues, per, throttled)
+		dir := filepath.Join(r.Scratch, fmt.Sprintf("c18-op-%d", c.Idx))
+		hooks := filepath.Join(dir, "hooks")
+		tmp := filepath.Join(dir, "tmp")
+		_ = os.MkdirAll(hooks, 0o755)
+		_ = os.MkdirAll(tmp, 0o755)
+		defer os.RemoveAll(dir)
+		logf := filepath.Join(dir, "starts.log")
+		settings := fmt.Sprintf(`, "settings": {"executionMinInterval": "%s", "executionBurst": %d}`, iv.String(), b)
+		if !throttled {
+			settings = ""
+		}
+		script := "#!/bin/bash\nif [[ \"${1:-}\" == \"--config\" ]]; then\n  echo '{\"configVersion\": \"v1\", \"onStartup\": 1" + settings + "}'\n  exit 0\nfi\ndate +%s%N >> " + logf + "\n"
+		_ = os.WriteFile(filepath.Join(hooks, "hook.sh"), []byte(script), 0o755)
+		op := shell_operator.NewShellOperator(context.Background(), shell_operator.WithLogger(log.NewNop()))
+		op.MetricStorage = metricstorage.NewMetricStorage(context.Background(), "", true, log.NewNop())
+		op.HookMetricStorage = metricstorage.NewMetricStorage(context.Background(), "", true, log.NewNop())
+		if err := op.VerifC18Setup(hooks, tmp); err != nil {
+			c.Op("operator-setup", "err "+firstLine(err.Error()))
+			return
+		}
+		h := op.HookManager.GetHook("hook.sh")
+		if h == nil {
+			c.Op("operator-setup", "hook-not-loaded")
+			return
+		}
+		if throttled {
+			c.Op(fmt.Sprintf("settings i=%d b=%d", int64(iv), b), c18LimLine(h.RateLimiter))
+		} else {
+			c.Op("settings i=- b=-", c18LimLine(h.RateLimiter))
+		}
+		var wg sync.WaitGroup
+		var mu sync.Mutex
+		var reqs []int64
+		bad := ""
+		t0 := time.Now()
+		for q := 0; q < queues; q++ {
+			wg.Add(1)
+			go func(q int) {
+				defer wg.Done()
+				for i := 0; i < per; i++ {
+					bc := bindingcontext.BindingContext{Binding: string(htypes.OnStartup)}
+					bc.Metadata.BindingType = htypes.OnStartup
+					t := task.NewTask(task_metadata.HookRun).
+						WithQueueName(fmt.Sprintf("q%d", q)).
+						WithMetadata(task_metadata.HookMetadata{HookName: "hook.sh", BindingType: htypes.OnStartup,
+							BindingContext: []bindingcontext.BindingContext{bc}}).
+						WithQueuedAt(time.Now())
+					mu.Lock()
+					reqs = append(reqs, int64(time.Since(t0)))
+					mu.Unlock()
+					res := op.VerifC18HandleHookRun(t)
+					if res.Status != "Success" {
+						mu.Lock()
+						bad = string(res.Status)
+						mu.Unlock()
+						return
+					}
+				}
+			}(q)
+		}
+		done := make(chan struct{})
+		go func() { wg.Wait(); close(done) }()
+		select {
+		case <-done:
+		case <-time.After(50 * time.Second):
+			c.Inconcl = "operator run did not finish in 50 s"
+			return
+		}
+		if bad != "" {
+			c.Op(fmt.Sprintf("operator-run expect=%d", queues*per), "task-status-"+bad)
+			return
+		}
+		var starts []int64
+		lb, _ := os.ReadFile(logf)
+		for _, l := range strings.Fields(string(lb)) {
+			var v int64
+			if _, err := fmt.Sscan(l, &v); err == nil {
+				starts = append(starts, v-t0.UnixNano())
+			}
+		}
+		sort.Slice(starts, func(i, j int) bool { return starts[i] < starts[j] })
+		c.Op(fmt.Sprintf("operator-run expect=%d", queues*per), fmt.Sprintf("executions=%d", len(starts)))
+		c.Note("kind:operator")
+		c.Nontrivial = true
+		if len(starts) != queues*per {
+			return // the `operator-run` line already differs from the model's answer
+		}
+		if !throttled {
+			// nothing to bound; the run only shows that an unthrottled hook is executed at once
+			return
+		}
+		// starts lag grants by process start-up (fork/exec of bash): allowance 120 ms
+		allow := 120 * time.Millisecond
+		switch {
+		case c18BoundOK(int64(iv-allow), int64(b), starts):
+			c.Oracle(fmt.Sprintf("bound I=%d B=%d starts=%s", int64(iv-allow), b, joinI64(starts)))
+		case !c18BoundOK(int64(iv/2), int64(b), starts):
+			c.Oracle(fmt.Sprintf("bound I=%d B=%d starts=%s", int64(iv/2), b, joinI64(starts)))
+		default:
+			c.Inconcl = "hook processes started more than 120 ms after their grants"
+		}
+	})
 }
 
 // c18BoundOK is used only to choose between "check", "report" and "inconclusive" for the wall-clock
